@@ -171,6 +171,16 @@ func init() {
 			},
 		},
 		propCheck{
+			ID: "C21", Level: "exploration",
+			Rule: "one evaluation = one simulated history on a generated table (INT primary key plus 1-4 columns of tinyint / smallint / int / bigint / varchar(4|12), nullable or not, 2-8 rows with boundary values and numeric / non-numeric / long strings and NULLs): 3-16 (thorough: -30) steps of ALTER TABLE ADD COLUMN (default or not, FIRST / AFTER), DROP COLUMN, RENAME COLUMN, MODIFY / CHANGE COLUMN to another type and nullability, ADD / DROP PRIMARY KEY, ADD [UNIQUE] INDEX, DROP INDEX, RENAME TABLE, issued by two sessions and interleaved with inserts that fit the model's schema; in half of the runs a storage error is injected at edit call 1-4 of a third of the ALTERs (table rewrite, index build). After every statement: SELECT * equals the model (retained columns keep their values; converted when representable: integer range, canonical integer text, string length, NULL into NOT NULL, uniqueness under a new or modified key), a change the model cannot carry out on the data present must fail, a failed statement leaves rows and DESCRIBE unchanged, after success both sessions read the model's rows and DESCRIBE (field, type, null, key, default) and information_schema.columns (name, data type, nullability, order) show the model's schema; distinct = distinct hash of the operation-kind/outcome sequence",
+			Real: []string{"ALTER TABLE planning and execution (sql/rowexec/ddl_iters.go: add / drop / modify / rename column, primary key and index changes, table rewrite)", "memory table schema changes, rewrite editor, index build", "DESCRIBE, information_schema.columns"},
+			Stub: []string{"session scheduling at statement granularity (two sessions alternate)", "storage error source (verifhook.Fault at memory table editor calls)"},
+			Assumptions: []string{"strict SQL mode (the default): a value that does not fit the new type makes the ALTER fail rather than being adjusted", "only canonical integer text ('12', '-4') counts as representable in an integer column", "collation changes, generated columns, multi-column keys and partitioned tables are not generated here"},
+			Subs: []subCheck{
+				{ID: "C21", World: "sqlsim", Quick: 4000, Thorough: 300000, QuickCap: 90, ThoroughCap: 1500, GC: "100"},
+			},
+		},
+		propCheck{
 			ID: "C23", Level: "exploration",
 			Rule: "one evaluation = one simulated history on table t with a generated trigger set: 1-6 initial triggers plus CREATE / DROP TRIGGER during the history, BEFORE / AFTER x INSERT / UPDATE / DELETE, several per time and event placed with FOLLOWS / PRECEDES, bodies of 1-3 steps drawn from: write an audit row (trigger name, row id, OLD.a, NEW.a, NEW.b) into lg, SET NEW.a = NEW.a + k, SET NEW.b from OLD / NEW, IF .. THEN SIGNAL; 5-24 (thorough: -40) multi-row INSERT / UPDATE / DELETE statements by two sessions, with planted duplicate keys, SIGNAL conditions and storage errors at a drawn edit call (of t or lg) in the runs that do not steer away from the known finding. After every statement: t equals the model (NEW as left by the BEFORE triggers is what is stored), affected rows = changed rows, and the audit rows written since the previous statement are, per affected row, exactly the model's sequence: every trigger once, in the order given by creation and FOLLOWS / PRECEDES, seeing the OLD / NEW values of its position in the chain; a failed statement leaves neither rows in t nor audit rows; distinct = distinct hash of the statement-kind/outcome sequence",
 			Real: []string{"analyzer applyTriggers / plan.OrderTriggers, trigger executor and rollback iterators", "CREATE / DROP TRIGGER, SIGNAL, BEGIN..END blocks, SET NEW.x", "engine + memory backend (t and the audit table)"},
